@@ -116,4 +116,19 @@ PROPS = {
         "require_counters": ["copies", "round_trips", "round_trips_lossless", "points_evaluated"],
         "assumptions": ASSUME_COMMON,
     },
+    "C11": {
+        "rule": ("each case: random domain, random forest kind (MT bool/int/real, EV+, EV* x rules) and policies, 1-4 random "
+                 "functions; for each: full iteration and 0-3 masked iterations (fixed / free / unchanged positions) must visit "
+                 "exactly the non-default assignments matching the mask, once each, in lexicographic order (top variable most "
+                 "significant, unprimed before primed), reporting the function value; dereferencing the exhausted iterator must "
+                 "raise INVALID_ITERATOR; CARDINALITY as long, double and mpz must equal the count; getNodeCount/getEdgeCount must "
+                 "equal an independent walk over unpacked nodes.  non-trivial = a function with more than one and not all points "
+                 "non-default; distinct = hash(forest, shape, tables)"),
+        "passes": {
+            "quick": [P("main", "asan", 2000)],
+            "thorough": [P("main", "asan", 50000)],
+        },
+        "require_counters": ["full_iterations", "masked_iterations", "masks_selecting_proper_subset", "cardinalities", "graph_counts"],
+        "assumptions": ASSUME_COMMON,
+    },
 }
